@@ -939,6 +939,28 @@ pub fn run(args: &Args) {
             factory_case(&mut cx, ai, &x, &t);
         }
     }
+    // large training corpora: per-symbol counts just below / at / above 2^16 and 2^17 (stored count and table fields),
+    // a dominant byte next to rare ones; payloads that use the dominant and the rare symbols
+    for ai in 0..ALGS.len() {
+        // (the dictionary coder - and the hybrid compressor, which contains it - needs minutes to index 64 KiB of one repeated
+        // byte; they store no per-symbol counts, so this family is for the two entropy coders that do)
+        if !matches!(ALGS[ai].0, Algorithm::Rans | Algorithm::Huffman) { continue; }
+        for &c in [65535usize, 65536, 65537, 70_000, 131_073].iter() {
+            let mut r = cx.rng.clone();
+            let dom = *r.pick(&[b'a', b' ', 0u8, 0xFF]);
+            let mut t: Vec<u8> = Vec::with_capacity(c + 1200);
+            for i in 0..c { t.push(dom); if i % 997 == 0 { t.push(TEXT[(i / 997) % TEXT.len()]); } }
+            t.extend((0..=255u8).collect::<Vec<u8>>());
+            t.extend_from_slice(TEXT);
+            for &n in &[40usize, 700] {
+                let mut x: Vec<u8> = Vec::with_capacity(n);
+                while x.len() < n { if r.chance(1, 2) { x.push(dom); } else { let k = r.below(TEXT.len() as u64) as usize; x.push(TEXT[k]); if r.chance(1, 9) { x.push(r.below(256) as u8); } } }
+                cx.sum.dist("factory_large_training_corpus");
+                factory_case(&mut cx, ai, &x, &t);
+            }
+            cx.rng = r;
+        }
+    }
     for k in 0..(if th { 8000 } else { 700 }) {
         let mut r = cx.rng.clone();
         let x = rand_payload(&mut r);
